@@ -176,9 +176,203 @@ def check(run, replay):
     pc = [[p["name"].encode(), pdir.encode()] for p in plats]
     diffs = vlib.correspond(run, "Platform::set", model, [vh, "sizeof"], pc, tag="sizeof",
                             nontrivial=lambda c, m, i: c[0], bucket=lambda c, m, i: "ok" if m == i else "diff")
+    # ---- X2 end to end on the real binary
+    x2_end_to_end(run, model, plats, lits)
+
     for c, m, i in diffs:
         run.violation("platform-table:" + c[0].decode(), "Platform::set(%s) gives %s but the translated table has %s" % (c[0].decode(), vlib.show(i), vlib.show(m)),
                       {"broken": "translator/loader", "platform": c[0].decode(), "impl": vlib.show(i), "table": vlib.show(m)}, found_input=False)
+
+
+CAST_TYPES = [("signed char", "TChar", True), ("unsigned char", "TChar", False), ("short", "TShort", True),
+              ("unsigned short", "TShort", False), ("int", "TInt", True), ("unsigned int", "TInt", False),
+              ("long", "TLong", True), ("unsigned long", "TLong", False), ("long long", "TLongLong", True)]
+SIZEOF_TYPES = [("char", 1), ("signed char", 1), ("unsigned char", 1), ("short", "sizeof_short"), ("unsigned short", "sizeof_short"),
+                ("int", "sizeof_int"), ("unsigned int", "sizeof_int"), ("long", "sizeof_long"), ("unsigned long", "sizeof_long"),
+                ("long long", "sizeof_long_long"), ("unsigned long long", "sizeof_long_long"), ("float", "sizeof_float"),
+                ("double", "sizeof_double"), ("long double", "sizeof_long_double"), ("void *", "sizeof_pointer"),
+                ("char *", "sizeof_pointer"), ("int **", "sizeof_pointer")]
+SZFIELD = {"TChar": 1, "TShort": "sizeof_short", "TInt": "sizeof_int", "TLong": "sizeof_long", "TLongLong": "sizeof_long_long"}
+CHAR_BODIES = [b"a", b"Z", b"0", b" ", b"\\n", b"\\t", b"\\0", b"\\\\", b"\\'", b"\\\"", b"\\a", b"\\x41", b"\\x7f", b"\\x80", b"\\xff", b"\\xe9",
+               b"\\101", b"\\177", b"\\200", b"\\377", b"\\e", b"ab", b"a\\n", b"\\xff\\xff", b"abcd", b"\\0a"]
+
+
+def x2_end_to_end(run, model, plats, lits):
+    """generated C / C++ files through the real `cppcheck --dump --platform=P`; Known values on the
+    initializer expressions vs the model (literals, character tokens, sizeof, casts) and vs C semantics
+    (unsigned arithmetic, range of the expression's type)."""
+    quick = run.tier == "quick"
+    rng = run.rng
+    names = ["unix64", "unix32", "win64", "avr8", "arm32-wchar_t4"] if quick else [p["name"] for p in plats]
+    byname = {p["name"]: p for p in plats}
+    c_suffixes = [b"", b"u", b"U", b"l", b"L", b"ul", b"LU", b"ll", b"LL", b"ull", b"LLU", b"uLL"]
+    pool = [l for l in lits if l[1] < 2 ** 63 and any(l[0].endswith(s) for s in c_suffixes[1:]) or (l[1] < 2 ** 63 and l[0][-1:] in b"0123456789abcdefABCDEF")]
+    pool = [l for l in pool if not l[0].lower().endswith((b"z", b"zu", b"uz", b"i64"))]
+    wd = tempfile.mkdtemp(prefix="c10x2_")
+    try:
+        sizeof_oracle(run, plats, wd)
+        for pname in names:
+            p = byname.get(pname)
+            if p is None:
+                continue
+            ib = 8 * p["sizeof_int"]
+            for cpp in (False, True):
+                cases = []      # (kind, text, expectation-producer)
+                if not cpp:
+                    for l in rng.sample(pool, min(len(pool), 60 if quick else 400)):
+                        cases.append(("literal", l[0].decode(), ("value", l[1])))
+                    for t, f in SIZEOF_TYPES:
+                        cases.append(("sizeof", "sizeof(%s)" % t, ("value", f if isinstance(f, int) else p[f])))
+                    for t, st, sg in CAST_TYPES:
+                        for v in [0, 1, 127, 128, 200, 255, 256, 300, 32767] + [rng.randrange(32768) for _ in range(2)]:
+                            for neg in (False, True):
+                                cases.append(("cast", "(%s)%s%d" % (t, "-" if neg else "", v), ("cast", -v if neg else v, SZFIELD[st] if isinstance(SZFIELD[st], int) else p[SZFIELD[st]], sg)))
+                        for v in [65535, 65536, 70000, 2 ** 31 - 1, 2 ** 31, 2 ** 32 - 1, 2 ** 32, 2 ** 40 + 123, rng.randrange(2 ** 62)]:
+                            cases.append(("cast", "(%s)%dLL" % (t, v), ("cast", v, SZFIELD[st] if isinstance(SZFIELD[st], int) else p[SZFIELD[st]], sg)))
+                    um = 2 ** ib
+                    for _ in range(40 if quick else 300):
+                        a = rng.choice([0, 1, 2, um - 1, um - 2, um // 2, um // 2 + 1, rng.randrange(um), rng.randrange(256)])
+                        b = rng.choice([0, 1, 2, um - 1, um // 2, rng.randrange(um), rng.randrange(1, 256)])
+                        op = rng.choice(["+", "-", "*", "/", "%", "&", "|", "^"])
+                        if op in "/%" and b == 0:
+                            b = 3
+                        r = {"+": a + b, "-": a - b, "*": a * b, "/": a // b if b else 0, "%": a % b if b else 0, "&": a & b, "|": a | b, "^": a ^ b}[op] % um
+                        cases.append(("uarith", "%du %s %du" % (a, op, b), ("uarith", r, op, (a, b))))
+                for body in CHAR_BODIES:
+                    if nchars(body) > p["sizeof_int"]:
+                        continue        # more characters than an int holds: implementation-defined beyond what gcc/clang agree on
+                    cases.append(("char", "'" + body.decode() + "'", ("cchar", body)))
+                ext = "cpp" if cpp else "c"
+                path = os.path.join(wd, "x2_%s.%s" % (pname.replace("-", "_"), ext))
+                with open(path, "w") as f:
+                    for i, (kind, text, exp) in enumerate(cases):     # one case per line, line i+1
+                        f.write("void f%d(void) { long long v = %s ; }\n" % (i, text))
+                rc, out = G.run_cppcheck(vlib.CPPCHECK, path, platform=pname, extra=["--std=c++17"] if cpp else [])
+                try:
+                    cfgs = G.parse_dump(path + ".dump")
+                except Exception as e:
+                    run.violation("x2:dump:" + pname, "no dump for platform %s: %s %s" % (pname, e, out[-300:]), {"broken": "dump", "platform": pname}, found_input=False)
+                    continue
+                toks, vals = cfgs[0]
+                byid = {t["id"]: t for t in toks}
+                got = {}
+                for t in toks:
+                    if t["str"] == "=" and t.get("astOperand2") and t.get("file", "").endswith(os.path.basename(path)):
+                        r = byid[t["astOperand2"]]
+                        got[int(t["linenr"]) - 1] = (G.known_int(r, vals), r.get("valueType-type"), r.get("valueType-sign"))
+                # model expectations in one batch
+                mlines = []
+                for kind, text, exp in cases:
+                    if exp[0] == "cast":
+                        mlines.append(vlib.enc_case([b"cast", str(exp[1]).encode(), str(exp[2]).encode(), b"1" if exp[3] else b"0"]))
+                    elif exp[0] == "cchar":
+                        mlines.append(vlib.enc_case([b"cchar", pname.encode(), b"1" if cpp else b"0", ("'" + exp[1].decode() + "'").encode()]))
+                    else:
+                        mlines.append(vlib.enc_case([b"classify", b"0"]))
+                rc, mo, me = vlib.run_lines([model], mlines)
+                for i, ((kind, text, exp), ml) in enumerate(zip(cases, mo)):
+                    impl = got.get(i, (None, None, None))
+                    mf = vlib.dec_line(ml)
+                    if exp[0] in ("value", "uarith"):
+                        want = exp[1]
+                    elif mf and mf[0] not in (b"e", b"B"):
+                        want = int(mf[0])
+                    else:
+                        want = None
+                    stream = "x2:" + kind + (":cpp" if cpp else "")
+                    if impl[0] is None:
+                        run.count(stream, None, bucket=pname + ",no-known-value")
+                        continue
+                    run.count(stream, None, nontrivial=(pname, text), bucket=pname + ("" if want == impl[0] else ",diff"))
+                    where = {"platform": pname, "language": ext, "expression": text, "cppcheck_known_value": impl[0], "expected": want,
+                             "type": "%s %s" % (impl[2], impl[1]),
+                             "how": "echo 'void f(void){ long long v = %s ; }' > t.%s && %s --dump -q --platform=%s t.%s  # Known value of the initializer" % (text, ext, vlib.CPPCHECK, pname, ext)}
+                    # the value must be representable in the expression's type on this platform
+                    bits = {"char": 8, "short": 8 * p["sizeof_short"], "int": ib, "long": 8 * p["sizeof_long"], "long long": 8 * p["sizeof_long_long"]}.get(impl[1])
+                    out_of_type = False
+                    if bits and bits < 64 and impl[2] in ("signed", "unsigned"):
+                        lo, hi = (0, 2 ** bits - 1) if impl[2] == "unsigned" else (-2 ** (bits - 1), 2 ** (bits - 1) - 1)
+                        out_of_type = not (lo <= impl[0] <= hi)
+                    if want is not None and impl[0] != want:
+                        if kind == "uarith" and exp[2] in ("*",):
+                            run.violation("unsigned-same-sign-fold", "%s on %s: Known %d, C value %d (unsigned '*' is folded in 64 bits and not reduced)" % (text, pname, impl[0], want), where)
+                        else:
+                            run.violation("x2:%s:%s:%s" % (kind, pname, text), "%s on %s (%s): cppcheck reports Known %d, the value is %d" % (text, pname, ext, impl[0], want), where)
+                    elif out_of_type:
+                        key = "x2:range:%s:%s" % (pname, text)
+                        if kind == "literal" and text[:2].lower() in ("0x", "0b") or (kind == "literal" and text[:1] == "0"):
+                            key = "nondecimal-literal-typed-too-narrow"
+                        elif kind == "char" and ib < 32:
+                            key = "multichar-literal-narrow-int"
+                        run.violation(key, "%s on %s: Known %d is outside the range of its type %s %s" % (text, pname, impl[0], impl[2], impl[1]), where)
+                    # the specification for one-character narrow literals: the platform's plain char
+                    if kind == "char" and want is not None:
+                        v1 = single_char_byte(exp[1])
+                        if v1 is not None:
+                            spec = v1 if (p["defaultSign"] == ord("u") or v1 < 128) else v1 - 256
+                            run.count("x2:char-spec", None, nontrivial=(pname, text, cpp), bucket="%s,%s" % (pname, "ok" if spec == impl[0] else "diff"))
+                            if spec != impl[0]:
+                                run.violation("char-literal-unsigned-char-platform" if (p["defaultSign"] == ord("u") and v1 >= 128) else "x2:charspec:%s:%s" % (pname, text),
+                                              "%s in a .%s file on %s (plain char %s): Known %d, the value is %d" % (text, ext, pname, "unsigned" if p["defaultSign"] == ord("u") else "signed", impl[0], spec),
+                                              dict(where, expected=spec, oracle="clang -target armv7-linux-gnueabihf / gcc -funsigned-char: _Static_assert('\\xff' == 255)"))
+    finally:
+        shutil.rmtree(wd, ignore_errors=True)
+
+
+def nchars(body):
+    n, i = 0, 0
+    while i < len(body):
+        if body[i:i + 1] == b"\\":
+            i += 2
+            while i < len(body) and body[i:i + 1] in b"0123456789abcdefABCDEF" and body[i - 1:i] != b"\\" and (body[i - 2:i - 1] == b"\\" or body[i - 1:i] in b"0123456789abcdefABCDEFx"):
+                i += 1
+        else:
+            i += 1
+        n += 1
+    return n
+
+
+def sizeof_oracle(run, plats, wd):
+    """the translated table against compilers for the targets that name one: gcc -m64/-m32 (unix64/unix32),
+    clang -target x86_64/i686-pc-windows-msvc (win64/win32A/win32W)"""
+    targets = {"unix64": ["gcc", "-m64"], "unix32": ["gcc", "-m32"],
+               "win64": ["clang", "-target", "x86_64-pc-windows-msvc"], "win32A": ["clang", "-target", "i686-pc-windows-msvc"],
+               "win32W": ["clang", "-target", "i686-pc-windows-msvc"]}
+    byname = {p["name"]: p for p in plats}
+    types = [("short", "sizeof_short"), ("int", "sizeof_int"), ("long", "sizeof_long"), ("long long", "sizeof_long_long"),
+             ("float", "sizeof_float"), ("double", "sizeof_double"), ("void *", "sizeof_pointer"), ("__SIZE_TYPE__", "sizeof_size_t"),
+             ("__WCHAR_TYPE__", "sizeof_wchar_t"), ("_Bool", "sizeof_bool")]
+    for name, cc in targets.items():
+        p = byname.get(name)
+        if p is None:
+            continue
+        with open(os.path.join(wd, "probe.c"), "w") as f:
+            f.write("int x;\n")
+        if not G.have(cc + ["-fsyntax-only", os.path.join(wd, "probe.c")]):
+            run.notes.append("oracle %s not available" % " ".join(cc))
+            continue
+        exprs = ["sizeof(%s) == %d" % (t, p[f]) for t, f in types] + ["(char)-1 %s 0" % ("<" if p["defaultSign"] == ord("s") else ">")]
+        res = G.gcc_static_asserts(cc + ["-std=gnu11"], exprs, wd)
+        for e, r in zip(exprs, res):
+            run.count("platform-table-vs-compiler", None, nontrivial=(name, e), bucket="%s,%s" % (name, r))
+            if r is False:
+                run.violation("platform-table:%s:%s" % (name, e), "platform %s: the table says %s, %s disagrees" % (name, e, " ".join(cc)),
+                              {"input": {"platform": name, "fact": e}, "oracle": " ".join(cc),
+                               "how": "echo '_Static_assert(%s, \"x\");' | %s -std=gnu11 -fsyntax-only -x c -   # and: cppcheck --platform=%s on `int v = sizeof(...)`" % (e, " ".join(cc), name)})
+
+
+def single_char_byte(body):
+    """byte value of a one-character body written as a plain char, \\xHH, \\ooo or a simple escape; else None"""
+    simple = {b"n": 10, b"t": 9, b"0": 0, b"\\": 92, b"'": 39, b'"': 34, b"a": 7, b"e": 27}
+    if len(body) == 1:
+        return body[0]
+    if body[:2] == b"\\x" and 3 <= len(body) <= 4:
+        return int(body[2:], 16)
+    if body[:1] == b"\\" and len(body) == 4 and body[1:].isdigit():
+        return int(body[1:], 8)
+    if body[:1] == b"\\" and len(body) == 2 and body[1:] in simple:
+        return simple[body[1:]]
+    return None
 
 
 def spec_check(run, model, rng, lits):
